@@ -146,8 +146,10 @@ def unsupplied_junctions(net, mg=None, slacks=None, respect_valves=True):
     mg = mg or create_nxgraph(net, respect_status_valves=respect_valves)
     if slacks is None:
         # pressure is fixed by external grids of type "p" / "pt" and by circulation pumps (flow side)
-        ext_grids = net.ext_grid[net.ext_grid.in_service.values & net.ext_grid.type.isin(["p", "pt"]).values]
-        slacks = set(ext_grids.junction.values)
+        slacks = set()
+        if "ext_grid" in net:
+            ext_grids = net.ext_grid[net.ext_grid.in_service.values & net.ext_grid.type.isin(["p", "pt"]).values]
+            slacks = set(ext_grids.junction.values)
         for circ_pump in ("circ_pump_mass", "circ_pump_pressure"):
             if circ_pump in net:
                 slacks |= set(net[circ_pump][net[circ_pump].in_service.values].flow_junction.values)
